@@ -40,11 +40,16 @@ type Rec struct {
 	// Entered is signalled (non-blocking) when an Encode call starts.
 	Entered chan struct{}
 	NoGid   bool
+	// Pre, when non-nil, runs at the start of every Encode (observer hook).
+	Pre func()
 }
 
 func NewRec() *Rec { return &Rec{} }
 
 func (r *Rec) Encode(v any) error {
+	if r.Pre != nil {
+		r.Pre()
+	}
 	seq := Tick()
 	var gid int64
 	if !r.NoGid {
